@@ -824,11 +824,11 @@ def _extract_last_applied(resource: dict) -> dict | None:
         return None
 
     metadata = resource.get("metadata")
-    if not metadata:
+    if not metadata or not isinstance(metadata, dict):
         return None
 
     annotations = metadata.get("annotations")
-    if not annotations:
+    if not annotations or not isinstance(annotations, dict):
         return None
 
     last_applied = annotations.get(LAST_APPLIED_ANNOTATION)
